@@ -20,9 +20,10 @@ def column_part(chk, quick, rnd):
     cases = cases[:700 if quick else 6000]
     jobs = []
     for c in cases:
-        jobs.append({"prog": c["prog"], "flow": c["flow"], "metadata": False, "ds": S, "mech": "scoped", "opts": {}})
+        sf = {"scalar_form": rnd.choice(["plain", "func", "func2"])} if any(r["r"] == 8 for it in c["prog"]["items"] for r in it["refs"]) else {}
+        jobs.append({"prog": c["prog"], "flow": c["flow"], "metadata": False, "ds": S, "mech": "scoped", "opts": dict(sf)})
         # the same text with no default in force, in the same process, right after: nothing of the scope may linger
-        jobs.append({"prog": c["prog"], "flow": c["flow"], "metadata": False, "mech": "none", "opts": {}})
+        jobs.append({"prog": c["prog"], "flow": c["flow"], "metadata": False, "mech": "none", "opts": dict(sf)})
         if not any(r["r"] == 9 for it in c["prog"]["items"] for r in it["refs"]):
             # (a schema-qualified column qualifier is not something the core grammar writes: the fallback is exercised by the
             # two configuration mechanisms only)
